@@ -286,7 +286,8 @@ def _c07_runs(tier):
     for a, g, dev, nsh in fr:
         for i in range(nsh):
             r.append(dict(h='mc_chunk', label='chunk-a%d-g%d-dev%d-frames-uniform-shard%d' % (a, g, dev, i),
-                          args=['--audio', str(a), '--gram', str(g), '--dev', str(dev), '--menu', 'frames', '--uniform', '1', '--shard', '%d/%d' % (i, nsh)]))
+                          args=['--audio', str(a), '--gram', str(g), '--dev', str(dev), '--menu', 'frames', '--uniform', '1', '--fresh', '1',
+                                '--shard', '%d/%d' % (i, nsh)]))
     if tier == 'thorough':
         for i in range(4):
             r.append(dict(h='mc_chunk', label='chunk-compallsen-shard%d' % i, args=['--audio', '2', '--gram', '0', '--dev', '2', '--menu', 'full',
@@ -437,7 +438,8 @@ CHECKS = {
              'call, by a partial hyp/seg/lattice/alignment query after a chunk; ALL plans with <= 2-3 deviations, all 1023 cut subsets of a '
              '10-point sub-menu, every first cut in [1,600]; a second menu of the sample counts that complete exactly f cepstral frames for every '
              'f in 124..136 and 252..264 (ring and feature-buffer sizes +- the dynamic-feature window); uniform chunkings of the whole utterance with '
-             '1, 80, 159, 160, 161, 320, 400, 512, 1024, 2048, 4096, 8192 samples per call (int16/float, with/without partial queries); audio = 0.3/0.7/1.4 s excerpts and the whole goforward.raw, zeros; loop grammar and '
+             '1, 80, 159, 160, 161, 320, 400, 512, 1024, 2048, 4096, 8192 samples per call (int16/float, with/without partial queries), these two '
+             'families each plan on a FRESH decoder (buffers that grew in an earlier utterance stay grown); audio = 0.3/0.7/1.4 s excerpts and the whole goforward.raw, zeros; loop grammar and '
              'alignment text; real front end and real scorer, decoder_set_cmn(fixed) before every utterance. Oracle (differential): feature '
              'vector of every searched frame (hashed at the acmod_score seam), frames searched, hypothesis, score, every segment with scores, '
              'and the three-level alignment identical to the reference run',
